@@ -17,6 +17,7 @@ func init() {
 		func(c *Ctx) {
 			c.run("C12-T", "TAINT: peer integers reach allocation/crash sinks only two-sidedly bounded", c12Taint)
 			c.run("C12-B", "WHO-READS: the peer's buffer-size limit only ever limits (argument of min / right side of <), sizes grow by doubling per acknowledged full chunk", c12BufLimit)
+			c.run("C12-N", "GUARD-DOM: values decoded from the peer cannot be nil where they are dereferenced (JSON 'null')", c12JSONTargets)
 			c.run("C12-G", "GUARD-DOM: constant-offset accesses in parsers/scanners are guarded", c12Guards)
 			c.run("C12-L", "LITERAL: escape tables cover every byte value", c12Tables)
 			c.run("C12-K", "PAIR: panic containment inventory", c12Containment)
@@ -415,8 +416,25 @@ func (t *taintState) bounds(v ssa.Value, at ssa.Instruction, extra []fact, depth
 		return true, true
 	}
 	fs := append(append([]fact{}, extra...), factsAt(at.Block())...)
+	// a sum/product of an operand that is not bounded above can wrap around: comparisons made on
+	// the wrapped result say nothing, so they are ignored
+	wraps := false
+	if b, ok := v.(*ssa.BinOp); ok && (b.Op == token.ADD || b.Op == token.MUL || b.Op == token.SHL) {
+		if bi, ok := v.(ssa.Instruction); ok {
+			for _, opnd := range []ssa.Value{b.X, b.Y} {
+				if t.isT(strip(opnd)) {
+					if _, ohi := t.bounds(opnd, bi, nil, depth+2); !ohi {
+						wraps = true
+					}
+				}
+			}
+		}
+	}
 	// direct facts on v
 	for _, fc := range fs {
+		if wraps {
+			break
+		}
 		op, x, y, ok := cmpFact(fc)
 		if !ok {
 			continue
@@ -978,5 +996,49 @@ func c12BufLimit(c *Ctx) {
 				c.check(lo, "bufferSize/shrink-clamped", c.ipos(ci), "the shrunken size is clamped from below", "the buffer size can shrink to zero or below")
 			}
 		}
+	}
+}
+
+// c12JSONTargets: json.Unmarshal targets are pointers to values (struct, slice, map-free), never pointers to
+// pointers: decoding the JSON literal null into a **T sets the *T to nil and the next field access panics.
+func c12JSONTargets(c *Ctx) {
+	n := 0
+	for _, f := range c.AllFns {
+		for _, ci := range callsIn(f, idIs("encoding/json.Unmarshal")) {
+			n++
+			t := strip(ci.Common().Args[1]).Type()
+			good := false
+			if p, ok := t.Underlying().(*types.Pointer); ok {
+				switch p.Elem().Underlying().(type) {
+				case *types.Pointer, *types.Interface:
+					good = false
+				default:
+					good = true
+				}
+			}
+			c.check(good, "json.Unmarshal.target@"+c.fnName(f), c.ipos(ci), "decodes into a value (JSON null leaves it a usable zero value)", "a received JSON document is decoded into a pointer-to-pointer (or interface): the literal null yields nil and the following field access panics in a goroutine without recover")
+		}
+	}
+	if n < 8 {
+		c.undecided("json.Unmarshal/sites", "fewer decode sites than expected")
+	}
+	// decoders return the address of the value they decoded into, or an error
+	for id := range c12Decoders {
+		name := strings.TrimPrefix(strings.TrimPrefix(id, "(*trzsz."), "trzsz.")
+		name = strings.Replace(name, ").", ".", 1)
+		f := c.Funcs[name]
+		if f == nil {
+			continue
+		}
+		eachInstr(f, func(in ssa.Instruction) {
+			r, ok := in.(*ssa.Return)
+			if !ok || !isNilErrReturn(in) {
+				return
+			}
+			v := strip(retVal(r, 0))
+			_, isAlloc := v.(*ssa.Alloc)
+			_, isFA := v.(*ssa.FieldAddr)
+			c.check(isAlloc || isFA, "decoder-result-non-nil/"+name, c.ipos(r), "a successful decode returns the address of a value", "a decoder can return a nil object without an error")
+		})
 	}
 }
